@@ -66,7 +66,7 @@ func init() {
 			variant{fam: "digest.FindMissingBlobs", name: dm.name, applies: always, build: func(fx *fixture, rng *rand.Rand) []*op {
 				d, b := mk(fx, rng)
 				ds := []*pb.Digest{b.digest(), d, {Hash: lib.RandHash(rng), SizeBytes: 9}}
-				return []*op{{ep: "grpc:CAS.FindMissingBlobs", mustFail: dm.mustFail, desc: map[string]any{"bad_digest": descDigest(d), "position": 1, "of": 3},
+				return []*op{{ep: "grpc:CAS.FindMissingBlobs", mustFail: dm.mustFail, class: dm.class(), desc: map[string]any{"bad_digest": descDigest(d), "position": 1, "of": 3},
 					run: func(ctx context.Context, fx *fixture) result {
 						_, err := fx.srv.CAS.FindMissingBlobs(ctx, &pb.FindMissingBlobsRequest{BlobDigests: ds})
 						return grpcRes(err)
@@ -75,7 +75,7 @@ func init() {
 			variant{fam: "digest.BatchReadBlobs", name: dm.name, applies: always, build: func(fx *fixture, rng *rand.Rand) []*op {
 				d, b := mk(fx, rng)
 				zs := rng.IntN(2) == 0
-				return []*op{{ep: "grpc:CAS.BatchReadBlobs", mustFail: dm.mustFail, desc: map[string]any{"bad_digest": descDigest(d), "accept_zstd": zs},
+				return []*op{{ep: "grpc:CAS.BatchReadBlobs", mustFail: dm.mustFail, class: dm.class(), desc: map[string]any{"bad_digest": descDigest(d), "accept_zstd": zs},
 					run: func(ctx context.Context, fx *fixture) result {
 						q := &pb.BatchReadBlobsRequest{Digests: []*pb.Digest{b.digest(), d}}
 						if zs {
@@ -102,7 +102,7 @@ func init() {
 				if comp == pb.Compressor_ZSTD {
 					data = lib.ZstdEncodeKP(data, 1)
 				}
-				return []*op{{ep: "grpc:CAS.BatchUpdateBlobs", mustFail: dm.mustFail, desc: map[string]any{"bad_digest": descDigest(d), "compressor": comp.String()},
+				return []*op{{ep: "grpc:CAS.BatchUpdateBlobs", mustFail: dm.mustFail, class: dm.class(), desc: map[string]any{"bad_digest": descDigest(d), "compressor": comp.String()},
 					run: func(ctx context.Context, fx *fixture) result {
 						resp, err := fx.srv.CAS.BatchUpdateBlobs(ctx, &pb.BatchUpdateBlobsRequest{Requests: []*pb.BatchUpdateBlobsRequest_Request{{Digest: d, Data: data, Compressor: comp}}})
 						res := grpcRes(err)
@@ -119,7 +119,7 @@ func init() {
 			}},
 			variant{fam: "digest.GetTree", name: dm.name, applies: always, build: func(fx *fixture, rng *rand.Rand) []*op {
 				d := dm.f(rng, fx.pool.rootDir)
-				return []*op{{ep: "grpc:CAS.GetTree", mustFail: dm.mustFail, desc: map[string]any{"root_digest": descDigest(d)},
+				return []*op{{ep: "grpc:CAS.GetTree", mustFail: dm.mustFail, class: dm.class(), desc: map[string]any{"root_digest": descDigest(d)},
 					run: func(ctx context.Context, fx *fixture) result {
 						return grpcRes(drainTree(fx.srv.CAS.GetTree(ctx, &pb.GetTreeRequest{RootDigest: d, PageSize: int32(rng.IntN(3)) - 1, PageToken: lib.Pick(rng, []string{"", "x"})})))
 					}}}
@@ -127,7 +127,7 @@ func init() {
 			variant{fam: "digest.GetActionResult", name: dm.name, applies: always, build: func(fx *fixture, rng *rand.Rand) []*op {
 				d := dm.f(rng, &blob{hash: fx.pool.acKey, size: 20})
 				inl := rng.IntN(2) == 0
-				return []*op{{ep: "grpc:AC.GetActionResult", mustFail: dm.mustFail, desc: map[string]any{"action_digest": descDigest(d), "inline": inl},
+				return []*op{{ep: "grpc:AC.GetActionResult", mustFail: dm.mustFail, class: dm.class(), desc: map[string]any{"action_digest": descDigest(d), "inline": inl},
 					run: func(ctx context.Context, fx *fixture) result {
 						_, err := fx.srv.AC.GetActionResult(ctx, &pb.GetActionResultRequest{ActionDigest: d, InlineStdout: inl, InlineStderr: inl, InlineOutputFiles: []string{"out/a"}})
 						return grpcRes(err)
@@ -135,7 +135,7 @@ func init() {
 			}},
 			variant{fam: "digest.UpdateActionResult", name: dm.name, applies: always, build: func(fx *fixture, rng *rand.Rand) []*op {
 				d := dm.f(rng, &blob{hash: lib.RandHash(rng), size: 20})
-				return []*op{{ep: "grpc:AC.UpdateActionResult", mustFail: dm.mustFail, desc: map[string]any{"action_digest": descDigest(d)},
+				return []*op{{ep: "grpc:AC.UpdateActionResult", mustFail: dm.mustFail, class: dm.class(), desc: map[string]any{"action_digest": descDigest(d)},
 					run: func(ctx context.Context, fx *fixture) result {
 						_, err := fx.srv.AC.UpdateActionResult(ctx, &pb.UpdateActionResultRequest{ActionDigest: d, ActionResult: validAR(fx)})
 						return grpcRes(err)
@@ -170,7 +170,7 @@ func init() {
 			register(variant{fam: "digest.ActionResult." + where, name: dm.name, applies: always, build: func(fx *fixture, rng *rand.Rand) []*op {
 				ar, d := build(fx, rng)
 				key := freshKey(fx, rng)
-				return []*op{{ep: "grpc:AC.UpdateActionResult", mustFail: mf, desc: map[string]any{"inner_digest": descDigest(d), "where": where},
+				return []*op{{ep: "grpc:AC.UpdateActionResult", mustFail: mf, class: dm.class(), desc: map[string]any{"inner_digest": descDigest(d), "where": where},
 					run: func(ctx context.Context, fx *fixture) result {
 						_, err := fx.srv.AC.UpdateActionResult(ctx, &pb.UpdateActionResultRequest{ActionDigest: key, ActionResult: ar})
 						return grpcRes(err)
@@ -180,7 +180,7 @@ func init() {
 				ar, d := build(fx, rng)
 				body, _ := proto.Marshal(ar)
 				key := lib.RandHash(rng)
-				return []*op{{ep: "http:PUT:/ac", mustFail: mf, desc: map[string]any{"inner_digest": descDigest(d), "where": where},
+				return []*op{{ep: "http:PUT:/ac", mustFail: mf, class: dm.class(), desc: map[string]any{"inner_digest": descDigest(d), "where": where},
 					run: func(ctx context.Context, fx *fixture) result {
 						return fx.httpDo(ctx, httpReq{method: "PUT", path: "/ac/" + key, body: body})
 					}}}
@@ -193,7 +193,7 @@ func init() {
 				whole := mkBlob(append(append([]byte{}, a.data...), b.data...), "spliced")
 				d := dm.f(rng, whole)
 				mf := dm.mustFail && dm.name != "nil" // optional: the server computes it
-				return []*op{ensureOp(a, b), {ep: "grpc:CAS.SpliceBlob", mustFail: mf, desc: map[string]any{"blob_digest": descDigest(d)},
+				return []*op{ensureOp(a, b), {ep: "grpc:CAS.SpliceBlob", mustFail: mf, class: dm.class(), desc: map[string]any{"blob_digest": descDigest(d)},
 					run: func(ctx context.Context, fx *fixture) result {
 						_, err := fx.srv.CAS.SpliceBlob(ctx, &pb.SpliceBlobRequest{BlobDigest: d, ChunkDigests: []*pb.Digest{a.digest(), b.digest()}})
 						return grpcRes(err)
@@ -202,7 +202,7 @@ func init() {
 			variant{fam: "digest.SpliceBlob.chunk", name: dm.name, applies: always, build: func(fx *fixture, rng *rand.Rand) []*op {
 				a := fx.pool.small[3]
 				d := dm.f(rng, fx.pool.small[4])
-				return []*op{ensureOp(a), {ep: "grpc:CAS.SpliceBlob", mustFail: dm.mustFail, desc: map[string]any{"chunk_digest": descDigest(d)},
+				return []*op{ensureOp(a), {ep: "grpc:CAS.SpliceBlob", mustFail: dm.mustFail, class: dm.class(), desc: map[string]any{"chunk_digest": descDigest(d)},
 					run: func(ctx context.Context, fx *fixture) result {
 						_, err := fx.srv.CAS.SpliceBlob(ctx, &pb.SpliceBlobRequest{ChunkDigests: []*pb.Digest{a.digest(), d}})
 						return grpcRes(err)
